@@ -44,9 +44,12 @@ import (
 	chainparams "github.com/palomachain/paloma/v2/app/params"
 	xchain "github.com/palomachain/paloma/v2/internal/x-chain"
 	"github.com/palomachain/paloma/v2/tests/integration/helper"
+	"github.com/palomachain/paloma/v2/util/blocks"
 	"github.com/palomachain/paloma/v2/verifharness/emit"
 	"github.com/palomachain/paloma/v2/x/consensus/keeper/consensus"
 	consensustypes "github.com/palomachain/paloma/v2/x/consensus/types"
+	consensusmodule "github.com/palomachain/paloma/v2/x/consensus"
+	evmmodule "github.com/palomachain/paloma/v2/x/evm"
 	evmkeeper "github.com/palomachain/paloma/v2/x/evm/keeper"
 	evmtypes "github.com/palomachain/paloma/v2/x/evm/types"
 	treasurytypes "github.com/palomachain/paloma/v2/x/treasury/types"
@@ -147,7 +150,7 @@ type callSpec struct {
 	Sigs     [][]byte // one per VS validator; nil = zero signature
 	Addr     common.Address
 	Payload  []byte
-	Fees     [3]uint64
+	Fees     [3]*big.Int // the three uint256 fee words of the call
 	Sender   [32]byte
 	MsgID    *big.Int
 	Deadline *big.Int
@@ -192,14 +195,14 @@ func fwdVals(f []fwd) []*big.Int {
 func (c *callSpec) values() [][]*big.Int {
 	switch c.Method {
 	case 1:
-		return [][]*big.Int{c.VS.flat(), sigVals(c.Sigs), za(c.Addr), zb(c.Payload), zu(c.Fees[0]), zu(c.Fees[1]), zu(c.Fees[2]),
+		return [][]*big.Int{c.VS.flat(), sigVals(c.Sigs), za(c.Addr), zb(c.Payload), z(c.Fees[0]), z(c.Fees[1]), z(c.Fees[2]),
 			zb(c.Sender[:]), z(c.MsgID), z(c.Deadline), za(c.Relayer)}
 	case 2:
 		return [][]*big.Int{c.VS.flat(), sigVals(c.Sigs), c.NewVS.flat(), za(c.Relayer), z(c.Gas)}
 	case 3:
 		return [][]*big.Int{c.VS.flat(), sigVals(c.Sigs), fwdVals(c.Forward), z(c.Deadline), z(c.Gas), za(c.Relayer)}
 	case 4:
-		return [][]*big.Int{c.VS.flat(), sigVals(c.Sigs), za(c.Addr), zb(c.Bytecode), zu(c.Fees[0]), zu(c.Fees[1]), zu(c.Fees[2]),
+		return [][]*big.Int{c.VS.flat(), sigVals(c.Sigs), za(c.Addr), zb(c.Bytecode), z(c.Fees[0]), z(c.Fees[1]), z(c.Fees[2]),
 			zb(c.Sender[:]), z(c.MsgID), z(c.Deadline), za(c.Relayer)}
 	case 5:
 		return [][]*big.Int{zb(c.Bytecode), zb(c.Ctor)}
@@ -275,7 +278,7 @@ func hcons(v vset, sigs [][]byte) hConsensus {
 	return out
 }
 func hfees(c *callSpec) hFees {
-	return hFees{new(big.Int).SetUint64(c.Fees[0]), new(big.Int).SetUint64(c.Fees[1]), new(big.Int).SetUint64(c.Fees[2]), c.Sender}
+	return hFees{c.Fees[0], c.Fees[1], c.Fees[2], c.Sender}
 }
 
 var (
@@ -388,7 +391,8 @@ func (b *bodyT) coq() string {
 // the correct call for this body with the first i signatures (i = 0: none)
 func (b *bodyT) correct(id uint64, gas uint64, vs vset, sigs []sigE, i int) *callSpec {
 	c := &callSpec{VS: vs, Relayer: common.HexToAddress(b.Relayer), MsgID: big.NewInt(int64(id)), Gas: new(big.Int).SetUint64(gas),
-		Deadline: big.NewInt(b.Deadline), Fees: b.Fees, Sender: pad32(b.Sender)}
+		Deadline: big.NewInt(b.Deadline), Sender: pad32(b.Sender),
+		Fees: [3]*big.Int{new(big.Int).SetUint64(b.Fees[0]), new(big.Int).SetUint64(b.Fees[1]), new(big.Int).SetUint64(b.Fees[2])}}
 	m := map[common.Address][]byte{}
 	for _, s := range sigs[:i] {
 		m[s.Addr] = s.Sig
@@ -554,6 +558,15 @@ func (p *pools) u64() uint64 {
 	}
 	return uint64(p.r.Intn(1_000_000))
 }
+func (p *pools) fee() uint64 {
+	switch p.r.Intn(7) {
+	case 0:
+		return 1<<63 + uint64(p.r.Intn(4))
+	case 1:
+		return []uint64{1<<64 - 1, 1<<64 - 2, 1<<63 - 1, 1 << 63}[p.r.Intn(4)]
+	}
+	return p.u64()
+}
 func (p *pools) deadline() int64 {
 	switch p.r.Intn(8) {
 	case 0:
@@ -580,7 +593,7 @@ func (p *pools) sig() []byte {
 }
 
 func (p *pools) body(kind int) *bodyT {
-	b := &bodyT{Kind: kind, Relayer: p.addrStr(), Deadline: p.deadline(), Fees: [3]uint64{p.u64(), p.u64(), p.u64()},
+	b := &bodyT{Kind: kind, Relayer: p.addrStr(), Deadline: p.deadline(), Fees: [3]uint64{p.fee(), p.fee(), p.fee()},
 		Sender: p.senders[p.r.Intn(len(p.senders))]}
 	switch kind {
 	case kSLC:
@@ -669,7 +682,15 @@ func (p *pools) corrupt(c *callSpec, which int) {
 			c.Payload = p.payloads[r.Intn(len(p.payloads))]
 		}
 	case 4:
-		c.Fees[r.Intn(3)] += uint64(1 + r.Intn(2))
+		k := r.Intn(3)
+		f := c.Fees[k]
+		c.Fees = [3]*big.Int{c.Fees[0], c.Fees[1], c.Fees[2]}
+		if f.BitLen() == 64 && r.Intn(2) == 0 {
+			// the word a sign-extending int64 conversion of this fee would pack: 2^256 - (2^64 - fee)
+			c.Fees[k] = u256(new(big.Int).Sub(f, new(big.Int).Lsh(big.NewInt(1), 64)))
+		} else {
+			c.Fees[k] = new(big.Int).Add(f, big.NewInt(int64(1+r.Intn(2))))
+		}
 	case 5:
 		c.Sender[r.Intn(32)] ^= 1
 	case 6:
@@ -1248,6 +1269,10 @@ type history struct {
 	sigs    map[uint64][]sigE
 	nAccept int
 	nReject int
+	nextID  uint64 // the id the model will hand out next (0: unknown yet)
+	last    obsT   // the previous step's reading
+	evmMod  evmmodule.AppModule
+	consMod consensusmodule.AppModule
 }
 
 func (h *history) observe(res int) obsT {
@@ -1288,7 +1313,8 @@ func (h *history) observe(res int) obsT {
 }
 
 func (h *history) record(op string, res int) {
-	h.steps = append(h.steps, emit.Pair(op, h.observe(res).coq()))
+	h.last = h.observe(res)
+	h.steps = append(h.steps, emit.Pair(op, h.last.coq()))
 }
 
 // messages that appeared in the queue without the harness having put them there
@@ -1298,6 +1324,9 @@ func (h *history) spawnedSince(before map[uint64]bool) []*bodyT {
 		if !before[m.id] {
 			out = append(out, m.body)
 			h.known[m.id] = m.body
+			if m.id >= h.nextID {
+				h.nextID = m.id + 1
+			}
 		}
 	}
 	return out
@@ -1444,6 +1473,9 @@ func runHistory(t *testing.T, run *emit.Run, idx int) {
 		delete(h.known, m.id)
 	}
 	n0 := first
+	h.nextID = n0
+	h.evmMod = evmmodule.NewAppModule(e.f.Codec, *e.evm, nil, nil)
+	h.consMod = consensusmodule.NewAppModule(e.f.Codec, e.f.ConsensusKeeper, nil, nil)
 
 	userContracts := map[uint64]int64{} // user contract id -> deployment height
 	nops := 16 + r.Intn(14)
@@ -1455,6 +1487,10 @@ func runHistory(t *testing.T, run *emit.Run, idx int) {
 				return qmsg{}, false
 			}
 			return qs[r.Intn(len(qs))], true
+		}
+		if r.Intn(100) < 7 { // blocks pass, end-blockers run
+			h.advance()
+			continue
 		}
 		op := 22 + r.Intn(78)
 		if len(qs) < 4 && r.Intn(100) < 30-6*len(qs) {
@@ -1531,13 +1567,8 @@ func runHistory(t *testing.T, run *emit.Run, idx int) {
 					before := h.ids()
 					_, derr := e.evm.CreateUserSmartContractDeployment(e.ctx, author.String(), cid, chainName)
 					// the keeper may have queued its own upload message: make it known to the model first
-					own := h.spawnedSince(before)
-					for _, sb := range own {
-						logf("keeper queued its own user-contract upload (err=%v)", derr)
-						run.Count("B.op", "enqueue-by-keeper")
-						h.record("C07.XEnqueue "+sb.coq(), 0)
-					}
-					if len(own) > 0 { // one upload message per user deployment: the keeper's own is the subject
+					h.reconcile(before, fmt.Sprintf("CreateUserSmartContractDeployment (err=%v)", derr))
+					if len(h.ids()) > len(before) { // one upload message per user deployment: the keeper's own is the subject
 						continue
 					}
 					userContracts[cid] = e.ctx.BlockHeight()
@@ -1548,6 +1579,7 @@ func runHistory(t *testing.T, run *emit.Run, idx int) {
 			if err != nil {
 				t.Fatalf("PutMessageInQueue: %v", err)
 			}
+			h.noteID(id)
 			h.known[id] = b
 			logf("enqueue id=%d kind=%d key=%d", id, kind, b.Key)
 			run.Count("B.op", "enqueue")
@@ -1599,7 +1631,7 @@ func runHistory(t *testing.T, run *emit.Run, idx int) {
 			if b.Kind != kSLC && b.Kind != kUploadUser {
 				continue
 			}
-			b.Fees, b.NoFees = [3]uint64{p.u64(), p.u64(), p.u64()}, false
+			b.Fees, b.NoFees = [3]uint64{p.fee(), p.fee(), p.fee()}, false
 			if _, err := e.f.ConsensusKeeper.PutMessageInQueue(e.ctx, e.queue, b.message(chainName, e.vals[0].addr.String()), &consensus.PutOptions{MsgIDToReplace: m.id}); err != nil {
 				t.Fatal(err)
 			}
@@ -1732,104 +1764,7 @@ func runHistory(t *testing.T, run *emit.Run, idx int) {
 			}
 			h.record(fmt.Sprintf("C07.XAttest %d %s", m.id, coqSpawn(sp, cls != 4)), cls)
 		default: // the consensus end-blocker loop
-			// dry run on a cache context, message by message, to learn which follow-ups fail / what they queue
-			cctx, _ := e.ctx.CacheContext()
-			var envs []string
-			type pend struct {
-				m   qmsg
-				w   winInfo
-				vs  vset
-				was bool
-			}
-			var ps []pend
-			for _, m := range qs {
-				w := h.win[m.id]
-				vs := vset{}
-				if vid := h.vsid[m.id]; vid != 0 {
-					vs, _ = e.snapVS(vid)
-				}
-				was := w.kind == 1 && e.evm.VerifC07IsTxProcessed(cctx, w.tx.tx)
-				bq, _ := e.f.ConsensusKeeper.GetMessagesFromQueue(cctx, e.queue, 0)
-				bids := map[uint64]bool{}
-				for _, x := range bq {
-					bids[x.GetId()] = true
-				}
-				if !bids[m.id] {
-					continue
-				}
-				cls, _ := e.attestOne(t, cctx, m.id)
-				aq, _ := e.f.ConsensusKeeper.GetMessagesFromQueue(cctx, e.queue, 0)
-				var sp []*bodyT
-				for _, x := range aq {
-					if !bids[x.GetId()] {
-						cm, _ := x.ConsensusMsg(e.f.Codec)
-						if sb, ok := projectBody(cm.(*evmtypes.Message)); ok {
-							sp = append(sp, sb)
-						}
-					}
-				}
-				envs = append(envs, emit.Pair(emit.ZU(m.id), coqSpawn(sp, cls != 4)))
-				ps = append(ps, pend{m, w, vs, was})
-				if cls != 0 {
-					break
-				}
-			}
-			before, f0 := h.ids(), e.facts(t)
-			err := e.f.ConsensusKeeper.CheckAndProcessAttestedMessages(e.ctx)
-			f1 := e.facts(t)
-			eff := diffFacts(f0, f1)
-			h.effects = append(h.effects, eff...)
-			h.spawnedSince(before)
-			res := 0
-			if err != nil {
-				res = 4
-			}
-			after := h.ids()
-			// oracle per message.  Store effects are attributed first to the removed messages whose
-			// transaction is the right one (receipt ok, not used before), then to anybody else removed
-			// or kept -- any attribution of the second kind is a violation.
-			pool := append([][2]int64{}, eff...)
-			take := func(b *bodyT) [][2]int64 {
-				for i, y := range pool {
-					if y[0] == int64(b.Kind) && y[1] == int64(b.Key) {
-						pool = append(pool[:i], pool[i+1:]...)
-						return [][2]int64{y}
-					}
-				}
-				return nil
-			}
-			good := func(x pend) bool {
-				b := h.known[x.m.id]
-				return x.w.kind == 1 && x.w.status == 1 && !x.was && matches(b, x.m.id, h.gas[x.m.id], x.vs, h.sigs[x.m.id], x.w.tx.spec)
-			}
-			for pass := 0; pass < 2; pass++ {
-				for _, x := range ps {
-					b := h.known[x.m.id]
-					if good(x) != (pass == 0) {
-						continue
-					}
-					removed := !after[x.m.id]
-					var mine [][2]int64
-					if removed || pass == 1 {
-						mine = take(b)
-					}
-					switch {
-					case pass == 0 && removed: // accepted (class 0); for kinds without store effect removal is all there is to see
-						h.oracle(x.m.id, b, x.w, 0, x.vs, mine, x.was)
-					case pass == 1 && len(mine) > 0:
-						cls := 4
-						if removed {
-							cls = 1
-						}
-						h.oracle(x.m.id, b, x.w, cls, x.vs, mine, x.was)
-					case pass == 1 && removed && x.w.kind == 1:
-						h.nReject++
-					}
-				}
-			}
-			logf("end-block -> err=%v effects=%v", err, eff)
-			run.Count("B.op", "endblock")
-			h.record("C07.XEndBlock "+emit.List(envs), res)
+			h.endBlock(false)
 		}
 		if step%5 == 4 {
 			e.ctx = e.ctx.WithBlockHeight(e.ctx.BlockHeight() + 1).WithBlockTime(e.ctx.BlockTime().Add(6 * time.Second))
@@ -1843,6 +1778,218 @@ func runHistory(t *testing.T, run *emit.Run, idx int) {
 	_ = json.Marshal
 }
 
+
+// endBlock: the attestation loop of the consensus end-blocker.  full=false calls the public
+// CheckAndProcessAttestedMessages; full=true calls the consensus module's EndBlock (estimates,
+// attestation loop, pruning of messages older than 300 blocks every 50 blocks).
+func (h *history) endBlock(full bool) {
+	t, e, run := h.t, h.e, h.run
+	qs := e.queued(t)
+	// dry run on a cache context, message by message, to learn which follow-ups fail / what they queue
+	cctx, _ := e.ctx.CacheContext()
+	var envs []string
+	aborted := false
+	type pend struct {
+		m   qmsg
+		w   winInfo
+		vs  vset
+		was bool
+	}
+	var ps []pend
+	for _, m := range qs {
+		w := h.win[m.id]
+		vs := vset{}
+		if vid := h.vsid[m.id]; vid != 0 {
+			vs, _ = e.snapVS(vid)
+		}
+		was := w.kind == 1 && e.evm.VerifC07IsTxProcessed(cctx, w.tx.tx)
+		bq, _ := e.f.ConsensusKeeper.GetMessagesFromQueue(cctx, e.queue, 0)
+		bids := map[uint64]bool{}
+		for _, x := range bq {
+			bids[x.GetId()] = true
+		}
+		if !bids[m.id] {
+			continue
+		}
+		cls, _ := e.attestOne(t, cctx, m.id)
+		aq, _ := e.f.ConsensusKeeper.GetMessagesFromQueue(cctx, e.queue, 0)
+		var sp []*bodyT
+		for _, x := range aq {
+			if !bids[x.GetId()] {
+				cm, _ := x.ConsensusMsg(e.f.Codec)
+				if sb, ok := projectBody(cm.(*evmtypes.Message)); ok {
+					sp = append(sp, sb)
+				}
+			}
+		}
+		envs = append(envs, emit.Pair(emit.ZU(m.id), coqSpawn(sp, cls != 4)))
+		ps = append(ps, pend{m, w, vs, was})
+		if cls != 0 {
+			aborted = true
+			break
+		}
+	}
+	before, f0 := h.ids(), e.facts(t)
+	var err error
+	real := e.ctx
+	if full {
+		// the whole consensus end-blocker (estimates, attestation loop, pruning every 50 blocks) runs below; the state
+		// right after its attestation loop is the dry run's, which is what this step is compared on
+		if aborted {
+			err = errors.New("attestation loop aborted (dry run)")
+		}
+		e.ctx = cctx
+	} else {
+		err = e.f.ConsensusKeeper.CheckAndProcessAttestedMessages(e.ctx)
+	}
+	f1 := e.facts(t)
+	eff := diffFacts(f0, f1)
+	h.effects = append(h.effects, eff...)
+	h.spawnedSince(before)
+	res := 0
+	if err != nil {
+		res = 4
+	}
+	after := h.ids()
+	// oracle per message.  Store effects are attributed first to the removed messages whose
+	// transaction is the right one (receipt ok, not used before), then to anybody else removed
+	// or kept -- any attribution of the second kind is a violation.
+	pool := append([][2]int64{}, eff...)
+	take := func(b *bodyT) [][2]int64 {
+		for i, y := range pool {
+			if y[0] == int64(b.Kind) && y[1] == int64(b.Key) {
+				pool = append(pool[:i], pool[i+1:]...)
+				return [][2]int64{y}
+			}
+		}
+		return nil
+	}
+	good := func(x pend) bool {
+		b := h.known[x.m.id]
+		return x.w.kind == 1 && x.w.status == 1 && !x.was && matches(b, x.m.id, h.gas[x.m.id], x.vs, h.sigs[x.m.id], x.w.tx.spec)
+	}
+	for pass := 0; pass < 2; pass++ {
+		for _, x := range ps {
+			b := h.known[x.m.id]
+			if good(x) != (pass == 0) {
+				continue
+			}
+			removed := !after[x.m.id]
+			var mine [][2]int64
+			if removed || pass == 1 {
+				mine = take(b)
+			}
+			switch {
+			case pass == 0 && removed: // accepted (class 0); for kinds without store effect removal is all there is to see
+				h.oracle(x.m.id, b, x.w, 0, x.vs, mine, x.was)
+			case pass == 1 && len(mine) > 0:
+				cls := 4
+				if removed {
+					cls = 1
+				}
+				h.oracle(x.m.id, b, x.w, cls, x.vs, mine, x.was)
+			case pass == 1 && removed && x.w.kind == 1:
+				h.nReject++
+			}
+		}
+	}
+	h.logf("end-block full=%v -> err=%v effects=%v", full, err, eff)
+	run.Count("B.op", fmt.Sprintf("endblock full=%v", full))
+	h.record("C07.XEndBlock "+emit.List(envs), res)
+	if full {
+		afterLoop := h.ids()
+		e.ctx = real
+		if err := h.consMod.EndBlock(e.ctx); err != nil {
+			t.Fatalf("consensus EndBlock: %v", err)
+		}
+		h.reconcile(afterLoop, "consensus end-blocker pruning")
+	}
+}
+
+// reconcile: whatever an end-blocker did to the queue besides attesting is replayed into the
+// model as plain removals / enqueues (ids consumed by other queues are skipped)
+func (h *history) reconcile(before map[uint64]bool, what string) {
+	now := h.e.queued(h.t)
+	nowIDs := map[uint64]bool{}
+	for _, m := range now {
+		nowIDs[m.id] = true
+	}
+	var gone []string
+	for id := range before {
+		if !nowIDs[id] {
+			gone = append(gone, emit.ZU(id))
+			delete(h.known, id)
+		}
+	}
+	if len(gone) > 0 {
+		sort.Slice(gone, func(i, j int) bool { return len(gone[i]) < len(gone[j]) || (len(gone[i]) == len(gone[j]) && gone[i] < gone[j]) })
+		h.logf("%s removed %v", what, gone)
+		h.run.Count("B.op", "removed-by-end-blocker")
+		h.record("C07.XRemoveMany "+emit.List(gone), 0)
+	}
+	for _, m := range now {
+		if !before[m.id] {
+			h.noteID(m.id)
+			h.known[m.id] = m.body
+			h.logf("%s queued id=%d kind=%d", what, m.id, m.body.Kind)
+			h.run.Count("B.op", "enqueue-by-end-blocker")
+			h.record("C07.XEnqueue "+m.body.coq(), 0)
+		}
+	}
+}
+
+// noteID: the queue is about to show a message with this id; ids the shared counter handed to other
+// queues in between are skipped in the model
+func (h *history) noteID(id uint64) {
+	if h.nextID != 0 && id > h.nextID {
+		h.logf("ids %d..%d went to other queues", h.nextID, id-1)
+		o := h.last // the message is already in the real queue: the skip is compared on the previous reading
+		o.res = 0
+		h.steps = append(h.steps, emit.Pair(fmt.Sprintf("C07.XSkip %d", id-h.nextID), o.coq()))
+	}
+	h.nextID = id + 1
+}
+
+// syncIDs: ask the shared id counter (on a discarded cache context) what it would hand out next
+func (h *history) syncIDs() {
+	cctx, _ := h.e.ctx.CacheContext()
+	b := h.p.body(kUpdateValset)
+	b.Relayer = h.e.vals[0].eth.Hex()
+	id, err := h.e.f.ConsensusKeeper.PutMessageInQueue(cctx, h.e.queue, b.message(chainName, h.e.vals[0].addr.String()), &consensus.PutOptions{RequireSignatures: true})
+	if err != nil {
+		h.t.Fatal(err)
+	}
+	if h.nextID != 0 && id > h.nextID {
+		h.logf("ids %d..%d went to other queues", h.nextID, id-1)
+		h.record(fmt.Sprintf("C07.XSkip %d", id-h.nextID), 0)
+		h.nextID = id
+	}
+}
+
+func (h *history) logf(f string, a ...any) { h.log = append(h.log, fmt.Sprintf(f, a...)) }
+
+var jumps = []int64{1, 1, 300, blocks.DailyHeight, blocks.MonthlyHeight - 1, blocks.MonthlyHeight, blocks.MonthlyHeight + 1, 10 * blocks.MonthlyHeight}
+
+// advance: blocks pass (boundary-biased jump, sometimes aligned to the periods the end-blockers
+// use), then the evm and the consensus end-blockers run at the new height
+func (h *history) advance() {
+	e, r := h.e, h.run.Rng
+	d := jumps[r.Intn(len(jumps))]
+	nh := e.ctx.BlockHeight() + d
+	if al := []int64{0, 0, 50, 300, 10000}[r.Intn(5)]; al > 0 {
+		nh += (al - nh%al) % al
+	}
+	e.ctx = e.ctx.WithBlockHeight(nh).WithBlockTime(e.ctx.BlockTime().Add(time.Duration(d) * 1600 * time.Millisecond))
+	h.logf("advance %d blocks -> height %d", d, nh)
+	h.run.Count("B.advance", fmt.Sprint(d))
+	before := h.ids()
+	if err := h.evmMod.EndBlock(e.ctx); err != nil {
+		h.t.Fatalf("evm EndBlock: %v", err)
+	}
+	h.reconcile(before, "evm end-blocker")
+	h.syncIDs()
+	h.endBlock(true)
+}
 
 // runTwin: the one situation in which a single remote transaction matches two queued messages —
 // two valset updates with the same new valset, relayer, gas estimate and signers (update_valset
@@ -1869,20 +2016,25 @@ func runTwin(t *testing.T, run *emit.Run) {
 	b.NewVS, _ = e.snapVS(sid)
 	b.Key = sid
 	vid := e.snaps[r.Intn(len(e.snaps))]
+	h.evmMod = evmmodule.NewAppModule(e.f.Codec, *e.evm, nil, nil)
+	h.consMod = consensusmodule.NewAppModule(e.f.Codec, e.f.ConsensusKeeper, nil, nil)
 	var ids []uint64
-	for k := 0; k < 2; k++ {
+	var n0 uint64
+	signers := r.Perm(len(e.vals))[:1+r.Intn(3)]
+	// publish: queue the valset update, name the valset the relayer used, collect the signatures
+	publish := func() uint64 {
 		id, err := e.f.ConsensusKeeper.PutMessageInQueue(e.ctx, e.queue, b.message(chainName, e.vals[0].addr.String()), &consensus.PutOptions{RequireSignatures: true, RequireGasEstimation: true})
 		if err != nil {
 			t.Fatal(err)
 		}
+		if len(ids) == 0 {
+			n0 = id
+		}
+		h.noteID(id)
 		ids = append(ids, id)
 		h.known[id] = b
 		logf("enqueue id=%d kind=2 key=%d (twin)", id, b.Key)
 		h.record("C07.XEnqueue "+b.coq(), 0)
-	}
-	n0 := ids[0]
-	signers := r.Perm(len(e.vals))[:1+r.Intn(3)]
-	for _, id := range ids {
 		if err := e.f.ConsensusKeeper.SetMessagePublicAccessData(e.ctx, e.vals[0].addr, &consensustypes.MsgSetPublicAccessData{MessageID: id, QueueTypeName: e.queue, Data: []byte{1}, ValsetID: vid}); err != nil {
 			t.Fatal(err)
 		}
@@ -1904,7 +2056,9 @@ func runTwin(t *testing.T, run *emit.Run) {
 			h.sigs[id] = append(h.sigs[id], sigE{v.eth, sg})
 			h.record(fmt.Sprintf("C07.XSign %d %s", id, emit.Pair(emit.ZI(addrID(v.eth)), emit.ZI(tab.id(sg)))), 0)
 		}
+		return id
 	}
+	publish()
 	vs, _ := e.snapVS(vid)
 	i := 1 + r.Intn(len(signers))
 	x1 := h.addTx(b.correct(ids[0], 0, vs, h.sigs[ids[0]], i), 1)
@@ -1924,6 +2078,9 @@ func runTwin(t *testing.T, run *emit.Run) {
 		if viaBlock {
 			err = e.f.ConsensusKeeper.CheckAndProcessAttestedMessages(e.ctx)
 			cls = classify(err)
+			if h.ids()[id] && cls == 0 {
+				cls = 4 // some other queued message made the loop stop first
+			}
 		} else {
 			cls, err = e.attestOne(t, e.ctx, id)
 		}
@@ -1944,9 +2101,18 @@ func runTwin(t *testing.T, run *emit.Run) {
 	}
 	evidence(ids[0], x1)
 	c1 := attest(ids[0], r.Intn(2) == 0)
-	evidence(ids[1], x1)
-	c2 := attest(ids[1], r.Intn(2) == 0)
-	c3 := -1
+	// blocks pass -- a few, a day, the 30 days after which a snapshot is published again, ten times that --
+	// and the end-blockers run; then the same valset is published once more and the SAME transaction handed in
+	nAdv := 1 + r.Intn(2)
+	for k := 0; k < nAdv; k++ {
+		h.advance()
+	}
+	publish()
+	c2, c3 := -1, -1
+	if h.ids()[ids[1]] {
+		evidence(ids[1], x1)
+		c2 = attest(ids[1], r.Intn(2) == 0)
+	}
 	if h.ids()[ids[1]] { // still queued (it always is on the pinned tree: the reuse is refused without a flush)
 		evidence(ids[1], x2)
 		c3 = attest(ids[1], false)
